@@ -1101,3 +1101,6 @@ fn ctors_for_ty(ty: &Type) -> ConstructorSet {
         Type::InterfaceOutput(..) => unreachable!(),
     }
 }
+
+#[cfg(all(kani, abra_verif))]
+include!(concat!(env!("ABRA_VERIF_HARNESS_DIR"), "/pat.rs"));
